@@ -104,21 +104,21 @@ def build(variant):
 def tier_plan(prop, tier):
     q = tier == "quick"
     P = {
-        "C01": [("plain", 6000 if q else 400000)],
-        "C03": [("plain", 6000 if q else 300000)],
-        "C04": [("plain", 3000 if q else 150000)],
-        "C05": [("plain", 8000 if q else 500000)],
-        "C06": [("plain", 8000 if q else 500000)],
-        "C07": [("plain", 8000 if q else 500000)],
-        "C08": [("plain", 8000 if q else 500000)],
-        "C09": [("plain", 8000 if q else 500000)],
-        "C10": [("plain", 6000 if q else 300000)],
-        "C13": [("asan", 1200 if q else 120000)],
-        "C14": [("plain", 3000 if q else 150000), ("vg", 96 if q else 2500)],
-        "C15": [("plain", 300 if q else 4000)],
+        "C01": [("plain", 40000 if q else 2000000)],
+        "C03": [("plain", 30000 if q else 1500000)],
+        "C04": [("plain", 8000 if q else 400000)],
+        "C05": [("plain", 40000 if q else 2000000)],
+        "C06": [("plain", 30000 if q else 1500000)],
+        "C07": [("plain", 40000 if q else 2000000)],
+        "C08": [("plain", 30000 if q else 1500000)],
+        "C09": [("plain", 40000 if q else 2000000)],
+        "C10": [("plain", 30000 if q else 1500000)],
+        "C13": [("asan", 4000 if q else 200000)],
+        "C14": [("plain", 8000 if q else 400000), ("vg", 128 if q else 4000)],
+        "C15": [("plain", 2000 if q else 30000)],
         "C16": [("plain", 500 if q else 6000), ("asan", 100 if q else 2500)],
-        "C17": [("plain", 192 if q else 2400)],
-        "C18": [("plain", 700 if q else 100000), ("tsan", 120 if q else 12000)],
+        "C17": [("plain", 960 if q else 9600)],
+        "C18": [("plain", 450 if q else 100000), ("tsan", 100 if q else 12000)],
     }
     return P[prop]
 
